@@ -562,9 +562,9 @@ theorem crash_unblocks_peer (w : World) (h p sh ih s i n : Nat) (peek : Bool) (r
 
 /-- host 0's halves of the stream `h0:80 ⟷ h1:49152`, and host 1's. -/
 def exRd0 : RdH := { loc := C02.exLoc, rem := C02.exRem, chan := 1, fc := 0 }
-def exWr0 : WrH := { loc := C02.exLoc, rem := C02.exRem, fc := 1 }
+def exWr0 : WrH := { loc := C02.exLoc, rem := C02.exRem, fc := 1, sid := 1 }
 def exRd1 : RdH := { loc := C02.exRem, rem := C02.exLoc, chan := 0, fc := 1 }
-def exWr1 : WrH := { loc := C02.exRem, rem := C02.exLoc, fc := 0 }
+def exWr1 : WrH := { loc := C02.exRem, rem := C02.exLoc, fc := 0, sid := 0 }
 
 example : C02.exEst.getObj 0 1 = some (.stream (some exRd0) (some exWr0)) ∧
     C02.exEst.getObj 1 0 = some (.stream (some exRd1) (some exWr1)) := ⟨rfl, rfl⟩
